@@ -112,6 +112,11 @@ func doReplay(c *Ctx) int {
 }
 
 func workerMain(args []string) int {
+	if len(args) >= 2 && args[0] == "C12ISO" {
+		var i int
+		fmt.Sscan(args[1], &i)
+		return c12IsoRef(i)
+	}
 	if len(args) >= 6 && args[0] == "C12" {
 		return c12Worker(args[1:])
 	}
